@@ -1,0 +1,58 @@
+//! Verification seams (compiled only with `--cfg jbonsai_verif`).
+//!
+//! Nothing in here changes behaviour unless a harness installs a hook or a hash seed:
+//! - `yield_point(site)` forwards the site id to an installed hook (one relaxed atomic load otherwise);
+//! - `SeededState` replaces `RandomState` in the header parser so that the iteration order of
+//!   its maps is a pure function of `set_hash_seed` (thread-local, default 0).
+
+#![allow(missing_docs)]
+
+use std::cell::Cell;
+use std::hash::{BuildHasher, Hasher};
+use std::sync::atomic::{AtomicUsize, Ordering};
+
+static YIELD_HOOK: AtomicUsize = AtomicUsize::new(0);
+
+thread_local! {
+    static HASH_SEED: Cell<u64> = const { Cell::new(0) };
+}
+
+/// Install (or remove) the process-wide yield hook.
+pub fn set_yield_hook(hook: Option<fn(u32)>) {
+    YIELD_HOOK.store(hook.map_or(0, |f| f as usize), Ordering::SeqCst);
+}
+
+/// Called at guarded sites inside the synthesis pipeline.
+#[inline]
+pub fn yield_point(site: u32) {
+    let raw = YIELD_HOOK.load(Ordering::Relaxed);
+    if raw != 0 {
+        // SAFETY: `raw` was produced from a `fn(u32)` in `set_yield_hook`.
+        let f: fn(u32) = unsafe { std::mem::transmute::<usize, fn(u32)>(raw) };
+        f(site);
+    }
+}
+
+/// Set the hash seed used by header maps created on this thread from now on.
+pub fn set_hash_seed(seed: u64) {
+    HASH_SEED.with(|s| s.set(seed));
+}
+
+/// Deterministic, seedable replacement for `std::collections::hash_map::RandomState`.
+#[derive(Debug, Clone)]
+pub struct SeededState(u64);
+
+impl Default for SeededState {
+    fn default() -> Self {
+        SeededState(HASH_SEED.with(|s| s.get()))
+    }
+}
+
+impl BuildHasher for SeededState {
+    type Hasher = std::collections::hash_map::DefaultHasher;
+    fn build_hasher(&self) -> Self::Hasher {
+        let mut h = std::collections::hash_map::DefaultHasher::new();
+        h.write_u64(self.0);
+        h
+    }
+}
